@@ -36,6 +36,10 @@ def build_ae(config):
     ae.timeout = 0.01
     services = []
     for i, (role, classes) in enumerate(config['adds']):
+        if role == 'request':
+            # history: an association was already requested (and released) with the configuration so far
+            warm_up_request(ae)
+            continue
         svc = make_service(i)
         uids = [POOL[c] for c in classes]
         if role == 'scu':
@@ -47,10 +51,29 @@ def build_ae(config):
     return ae, services
 
 
+def warm_up_request(ae):
+    def responder(dul, rec):
+        if rec['kind'] == 'pdu' and rec['spec'].get('t') == 1:
+            pcs = [it for it in rec['spec']['items'] if it['t'] == 0x20]
+            return [fd.incoming_pdu(fd.ac_spec([(it['id'], 0, it['ts'][0]['name']) for it in pcs], 16384))]
+        if rec['kind'] == 'pdu' and rec['spec'].get('t') == 5:
+            return [fd.incoming_pdu({'t': 6, 'r1': 0, 'r2': 0})]
+        return []
+    fac = fd.Factory([lambda d: setattr(d, 'responder', responder)])
+    try:
+        with fd.installed(fac):
+            with ae.request_association({'aet': 'WARMUP', 'address': 'peer.example', 'port': 104}):
+                pass
+    except Exception:
+        pass          # (a configuration that cannot be requested fails here too; judged at the checked request)
+
+
 def expected_classes(config):
     """Distinct configured classes in first-configuration order, and the SCU service of each."""
     order, scu_service = [], {}
     for i, (role, classes) in enumerate(config['adds']):
+        if role == 'request':
+            continue
         for c in classes:
             u = POOL[c]
             if u not in order:
@@ -232,6 +255,9 @@ def configs(draw, big=False):
             role = 'scu' if kind == 'client' else draw(st.sampled_from(['scu', 'scp']))
             lst = draw(st.lists(st.integers(0, 12), min_size=0, max_size=6, unique=draw(st.booleans())))
             adds.append((role, lst))
+    if draw(st.booleans()):
+        pos = draw(st.integers(1, len(adds)))
+        adds.insert(pos, ('request', []))             # an earlier association request in the entity's history
     return {'kind': kind, 'ts': sorted(draw(st.sets(st.integers(0, 2)))), 'aet': draw(st.sampled_from(['CLI', 'A', 'LOCAL_AE_16CHARS'])),
             'max': draw(st.sampled_from([0, 7, 4096, 16384, 65536, 2 ** 32 - 1])), 'adds': adds}
 
@@ -248,7 +274,7 @@ remotes = st.fixed_dictionaries({'aet': st.sampled_from(['SRV', 'REMOTE', 'X' * 
 
 def nontrivial(config, reply):
     results = {p[0] for p in reply['pattern']}
-    return len(config['adds']) >= 2 and 0 in results and len(results) > 1
+    return len([a for a in config['adds'] if a[0] != 'request']) >= 2 and 0 in results and len(results) > 1
 
 
 def run_random(ctx, n, big):
@@ -259,6 +285,8 @@ def run_random(ctx, n, big):
         ctx.case((config, reply, remote), nontrivial(config, reply),
                  labels=['big' if big else 'small', 'classes=%s' % ('>128' if len(order) > 128 else '120-128' if len(order) >= 120 else '<120'),
                          outcome], sample={'config': dict(config, adds=[(r, len(c)) for r, c in config['adds']]), 'reply': reply})
+        if any(a[0] == 'request' for a in config['adds']):
+            ctx.label('earlier-request-in-history')
     hyp_search(ctx, st.tuples(configs(big), replies, remotes), fn, n, name='C11-random')
 
 
@@ -334,7 +362,7 @@ def run_builtin(ctx):
 def run(ctx):
     warnings.simplefilter('ignore')
     ctx.rule = ('Hypothesis: sequences of 1-6 add_scu/add_scp calls on ClientAE/AE (never bound) with class lists '
-                'from a pool of 200 synthetic UIDs, disjoint, overlapping across calls and repeated inside a call, small and with totals around and '
+                'from a pool of 200 synthetic UIDs, disjoint, overlapping across calls and repeated inside a call, optionally with an earlier association request between the calls, small and with totals around and '
                 'beyond 128; replies with every mix of result codes 0-4, syntax choices, in and out of proposal '
                 'order; exhaustive reply patterns for proposals of 1-4 contexts; the own service objects of the library '
                 '(storage_scp: 139 classes); non-trivial = >=2 add_* calls and a reply mixing accept and reject')
@@ -344,7 +372,7 @@ def run(ctx):
     run_exhaustive_replies(ctx)
     run_builtin(ctx)
     if ctx.thorough:
-        parallel(ctx, shard, [{'n': 1200, 'big': i % 2 == 1} for i in range(16)])
+        parallel(ctx, shard, [{'n': 4000, 'big': i % 2 == 1} for i in range(16)])
     else:
         parallel(ctx, shard, [{'n': 80, 'big': i % 2 == 1} for i in range(8)])
 
